@@ -33,8 +33,7 @@ def harvest(pid, wt):
         n += 1
     d = os.path.join(VERIF, "seeded", f"{pid}-{n}")
     os.makedirs(d)
-    rc, diff = sh("git diff -- src", cwd=wt)
-    open(os.path.join(d, "patch.diff"), "w").write(diff)
+    sh(f"git diff -- src > {os.path.join(d, 'patch.diff')}", cwd=wt)  # via the shell: keeps CRLF files byte-exact
     demo = seed.get("demo") or f"demo_{pid}.py"
     if os.path.exists(os.path.join(wt, demo)):
         shutil.copy(os.path.join(wt, demo), os.path.join(d, os.path.basename(demo)))
@@ -76,6 +75,9 @@ def verify(d, checks=None, tier="quick", tests=True):
             rc0, o0 = sh(f"{PY} {demo}", cwd=wt, env=env, timeout=1200)
             out["demo_on_original"] = {"exit": rc0, "tail": o0[-300:]}
         rc, o = sh(f"git apply {os.path.join(d, 'patch.diff')}", cwd=wt)
+        if rc != 0:  # later commits touched neighbouring lines: fall back to a 3-way merge of the same patch
+            rc, o = sh(f"git apply --3way {os.path.join(d, 'patch.diff')}", cwd=wt)
+            out["applied_with"] = "git apply --3way"
         out["patch_applies"] = rc == 0
         if rc != 0:
             out["apply_error"] = o[-500:]
@@ -103,7 +105,19 @@ def verify(d, checks=None, tier="quick", tests=True):
     finally:
         sh(f"git worktree remove --force {wt}", cwd=REPO)
         shutil.rmtree(home, ignore_errors=True)
-    meta.setdefault("verification", {})[tier] = out
+    prev = meta.setdefault("verification", {}).get(tier)
+    if prev and prev.get("patch_applies") and out.get("patch_applies"):  # merge: keep earlier demo / baseline results, update per-check results
+        merged = dict(prev)
+        for k, v in out.items():
+            if k == "checks":
+                merged.setdefault("checks", {}).update(v)
+            elif k == "baseline_with_change" and not isinstance(v, dict) and isinstance(prev.get(k), dict):
+                continue
+            else:
+                merged[k] = v
+        merged["caught_by"] = sorted(c for c, r in merged.get("checks", {}).items() if r["exit"] == 1)
+        out = merged
+    meta["verification"][tier] = out
     json.dump(meta, open(os.path.join(d, "meta.json"), "w"), indent=1)
     print(json.dumps(out, indent=1)[:3000])
     return out
@@ -115,8 +129,7 @@ def reverse_fix(commit, pid):
         n += 1
     d = os.path.join(VERIF, "seeded", f"{pid}-fix{n}")
     os.makedirs(d)
-    rc, diff = sh(f"git diff {commit} {commit}~1 -- src", cwd=REPO)
-    open(os.path.join(d, "patch.diff"), "w").write(diff)
+    sh(f"git diff {commit} {commit}~1 -- src > {os.path.join(d, 'patch.diff')}", cwd=REPO)  # via the shell: keeps CRLF files byte-exact
     subj = sh(f"git log -1 --format=%s {commit}", cwd=REPO)[1].strip()
     json.dump({"property": pid, "origin": f"reverse of repository fix commit {commit} ({subj}): re-introduces a genuine defect the checks found",
                "summary": f"revert: {subj}", "needs": "see the corresponding 'fixed' entry in known_findings.json", "demo": None},
